@@ -1,20 +1,15 @@
-\* C09 quick tier - exhaustive instance of Http (module MC_Http).
-\*   Servers  S1 S2 S3 (defined in MC_Http.tla; the driver runs one TLC per server and adds
-\*            VERIF_SEED-drawn random servers through a generated module MC_HttpRun)
-\*   Methods  GET POST HEAD OPTIONS PUT          ReqCTs  absent json graphql form multipart other bad
-\*   Accepts  10 lists (AcceptsQuick)            Upgrade header present / absent
-\*   Docs     10 documents (DocsQuick) x operationName in {absent, each name, unknown}
-\*            x validity {ok, invalid, varerr} + {parse, noop} x {absent, unknown} + {undecEnv, undecVars}
-\*   src      inline | apq (persisted-query hash; GET and POST application/json only)
-\*   Requests with an Upgrade header or a method other than GET/POST carry the probe documents only.
-\* Measured: 78,420 requests (26,140 per server), 469,910 distinct states, depth 9, 18 s with -workers 1
-\* (the Export action constraint prints one line per request and needs -workers 1); every action taken.
+\* C09 thorough tier - exhaustive instance of Http (module MC_Http).
+\*   Servers  S1 .. S6            Accepts  20 lists (AcceptsFull)
+\*   Docs     21 documents (DocsFull: every anonymous / named single operation, every pair of kinds,
+\*            every order of query+mutation+subscription); everything else as in MC_Http.cfg
+\* Measured: 701,520 requests (116,920 per server), 3,625,840 distinct states, depth 9,
+\* 50 s with -workers 4 (without reading the export), ~25 s per server with -workers 1.
 CONSTANTS
   Servers <- OnlyS3
   Methods <- MethodsAll
   ReqCTs <- ReqCTsAll
-  Accepts <- AcceptsQuick
-  Docs <- DocsQuick
+  Accepts <- AcceptsFull
+  Docs <- DocsFull
   Slip = "none"
 INIT Init
 NEXT Next
